@@ -153,8 +153,8 @@ def run(tier):
     dl = core.deadline_s(tier)
     its2, its1 = items(), items1()
     levels = [("items-depth2-len1", its2, 1), ("items-depth1-len2", its1, 2)]
-    if tier == "quick": levels.append(("items-depth2-len2-sub", its2[::5], 2))
-    else: levels += [("items-depth2-len2", its2, 2), ("items-depth1-len3", its1, 3)]
+    levels.append(("items-depth2-len2", its2, 2))
+    if tier != "quick": levels += [("items-depth1-len3", its1, 3), ("items-depth2-len3", its2, 3)]
     for name, its, L in levels:
         n = len(its) ** L
         res = pmap.pmap(n, make_seq_case(its, L), deadline_s=dl * 0.8)
